@@ -5873,7 +5873,9 @@ class PyCdlib:
         pvd.copy(self.pvd)
         self.pvds.append(pvd)
 
-        self._finish_add(self.logical_block_size, 0)
+        # On a UDF ISO, another Volume Descriptor doesn't actually increase
+        # the size, since there are a bunch of gaps at the beginning.
+        self._finish_add(0 if self._has_udf else self.logical_block_size, 0)
 
     def set_hidden(self, iso_path=None, rr_path=None, joliet_path=None):
         # type: (Optional[str], Optional[str], Optional[str]) -> None
